@@ -19,9 +19,10 @@ import vlib
 from gen import bamparts as B
 
 ID = "C12"
-PROPS = ["IsoVerif/Props/C12.lean", "IsoVerif/Props/C12Cache.lean", "IsoVerif/Props/C12EndToEnd.lean"]
-TARGETS = ["IsoVerif.Props.C12", "IsoVerif.Props.C12Cache", "IsoVerif.Props.C12EndToEnd"]
-GEN_DEPS = ["Prims", "Constants"]
+PROPS = ["IsoVerif/Props/C12.lean", "IsoVerif/Props/C12Cache.lean", "IsoVerif/Props/C12EndToEnd.lean",
+         "IsoVerif/Props/C12Ids.lean"]
+TARGETS = ["IsoVerif.Props.C12", "IsoVerif.Props.C12Cache", "IsoVerif.Props.C12EndToEnd", "IsoVerif.Props.C12Ids"]
+GEN_DEPS = ["Prims", "Constants", "AnnotationTypes"]
 LEVEL = "proof"
 RULE = ("merge / forwarded: exhaustive multisets of <=3 records over coordinates 0..3 x every assignment to <=3 files "
         "(sampled in the quick tier) + seeded random and clustered record sets (<=60 records, many start ties) split "
@@ -520,6 +521,110 @@ def correspondence(ctx):
     corr_history(ctx)
     from props import C12e2e
     C12e2e.correspondence(ctx)
+    corr_isoforms(ctx)
+
+
+# ---- which records of a GTF file become transcripts of the gene database (Model/GtfIds.lean, Props/C12Ids.lean) -------
+
+
+def gtf_record_case(rng):
+    """records of a small GTF file with gene records: transcript records typed `transcript` / `mRNA` (mixed), exon, CDS and
+    codon records, a transcript record without exons now and then, records of a type that nobody keys"""
+    recs = []
+    ng = rng.randint(1, 3)
+    pos = 100
+    for g in range(ng):
+        gid = "G%d" % g
+        ntx = rng.randint(1, 3)
+        start = pos
+        body = []
+        for t in range(ntx):
+            tid = "%s.t%d" % (gid, t)
+            ty = rng.choice(["transcript", "mRNA", "mRNA"])
+            p = start + rng.randint(0, 30)
+            ex = []
+            for _ in range(rng.choice([0, 1, 2, 2, 3, 4])):
+                ln = rng.randint(5, 200)
+                ex.append((p, p + ln))
+                p += ln + rng.randint(20, 300)
+            span = (ex[0][0], ex[-1][1]) if ex else (start, start + 50)
+            body.append({"ftype": ty, "gid": gid, "tid": tid, "span": span})
+            for e in ex:
+                body.append({"ftype": "exon", "gid": gid, "tid": tid, "span": e})
+                if rng.random() < 0.3:
+                    body.append({"ftype": "CDS", "gid": gid, "tid": tid, "span": (e[0], e[0] + 3)})
+            if ex and rng.random() < 0.3:
+                body.append({"ftype": rng.choice(["start_codon", "five_prime_utr"]), "gid": gid, "tid": tid, "span": (ex[0][0], ex[0][0] + 2)})
+            pos = max(pos, p)
+        lo = min(r["span"][0] for r in body)
+        hi = max(r["span"][1] for r in body)
+        recs.append({"ftype": "gene", "gid": gid, "tid": None, "span": (lo, hi)})
+        recs += body
+        pos = hi + rng.randint(50, 500)
+    return recs
+
+
+def gtf_of_records(recs):
+    out = []
+    for r in recs:
+        attr = 'gene_id "%s";' % r["gid"] + (' transcript_id "%s";' % r["tid"] if r["tid"] is not None else "")
+        out.append("c1\tsyn\t%s\t%d\t%d\t.\t+\t.\t%s" % (r["ftype"], r["span"][0], r["span"][1], attr))
+    return "\n".join(out) + "\n"
+
+
+def real_isoforms(recs, scratch, n):
+    """the REAL gtf2db (its id_spec, --complete_genedb, no input check) + the REAL GeneInfo on the database it wrote:
+    per gene (transcript ids of gene_id_map sorted, [tid, exons] of all_isoforms_exons)"""
+    import gffutils
+    import logging
+    vlib.repo_on_path()
+    import src.gtf2db as G2
+    import src.gene_info as GI
+    gtf = os.path.join(scratch, "r%d.gtf" % n)
+    db = os.path.join(scratch, "r%d.db" % n)
+    with open(gtf, "w") as f:
+        f.write(gtf_of_records(recs))
+    logging.getLogger("IsoQuant").setLevel(logging.CRITICAL)
+    G2.gtf2db(gtf, db, True, False)
+    fdb = gffutils.FeatureDB(db)
+    res = []
+    for g in fdb.features_of_type("gene", order_by="start"):
+        gi = GI.GeneInfo([g], fdb, prepare_profiles=False)
+        res.append([g.id, sorted(gi.gene_id_map.keys()), sorted([t, [list(e) for e in ex]] for t, ex in gi.all_isoforms_exons.items())])
+    os.remove(gtf)
+    os.remove(db)
+    return res
+
+
+def corr_isoforms(ctx):
+    rng = ctx.rng
+    scratch = vlib.scratch_dir("isoverif_c12ids_")
+    try:
+        tab = ctx.driver.run([vlib.req("C12I.tables")])[0]
+        ctx.extra["annotation_types"] = tab
+        witness = [{"ftype": "gene", "gid": "G1", "tid": None, "span": (1000, 2300)}]
+        for tid, ex in (("T1", [(1000, 1200), (1500, 1700), (2000, 2300)]), ("T2", [(1000, 1200), (2000, 2300)])):
+            witness.append({"ftype": "mRNA", "gid": "G1", "tid": tid, "span": (1000, 2300)})
+            witness += [{"ftype": "exon", "gid": "G1", "tid": tid, "span": e} for e in ex]
+        for k in range(60 if ctx.tier == "quick" else 600):
+            recs = witness if k == 0 else gtf_record_case(rng)
+            genes = [r["gid"] for r in recs if r["ftype"] == "gene"]
+            mo = ctx.driver.run([vlib.req("C12I.isoforms", recs=[dict(r, span=list(r["span"])) for r in recs], genes=genes)])[0]
+            ctx.evaluations += 1
+            ctx.count("op:isoforms")
+            model = [[g, sorted(i for i, _ in iso), sorted([i, ex] for i, ex in iso if ex)] for g, iso in mo]
+            try:
+                real = real_isoforms(recs, scratch, k)
+            except Exception as ex:
+                real = {"error": "error", "exc": "%s: %s" % (type(ex).__name__, ex)}
+            if any(r["ftype"] == "mRNA" for r in recs):
+                ctx.count("isoforms:file_with_mRNA_records")
+            if vlib.canon(model) != vlib.canon(real):
+                ctx.disagree("isoforms", {"recs": recs, "gtf": gtf_of_records(recs)}, model, real)
+            elif any(x[2] for x in model):
+                ctx.mark_nontrivial(["isoforms", gtf_of_records(recs)])
+    finally:
+        shutil.rmtree(scratch, ignore_errors=True)
 
 
 # ------------------------------------------------------------------------------------------------
@@ -827,8 +932,9 @@ def pipeline_partition(root, seed, scenario, k, part_seed, high_memory=False, th
     extra = (["--high_memory"] if high_memory else []) + ["--keep_tmp"]
     one = run_one(root, "one", [paths["bam"]], paths["ref"], paths["gtf"], True, extra=extra, threads=threads)
     spl = run_one(root, "split", bams, paths["ref"], paths["gtf"], True, extra=extra, threads=threads)
-    if one["rc"] != 0:
-        return "infra", "single-BAM run failed: " + one["log"][-400:], 0
+    if one["rc"] != 0 and spl["rc"] == one["rc"]:
+        # both representations fail alike: nothing to compare; one failing alone is a difference (compare_runs below)
+        return "infra", "single-BAM run and split run failed with exit code %s: %s" % (one["rc"], one["log"][-400:]), 0
     n = sum(_records(one["files"]["read_assignments.tsv"]).values()) if "read_assignments.tsv" in one["files"] else 0
     r = compare_runs(one, spl, PARTITION_OUTPUTS)
     if r is None:
@@ -853,11 +959,23 @@ def dump_hypotheses(root, names):
     return None
 
 
-def enrich_gtf(path):
+def enrich_gtf(path, style=None):
     """GENCODE-like attributes (names, types, repeated `tag` keys, exon numbers / ids) and CDS records, so that a
-    representation that loses or reorders attributes or records shows in the reference part of the outputs"""
+    representation that loses or reorders attributes or records shows in the reference part of the outputs.
+    `style` (audit2-C C12 GAP-1/2): other spellings of the SAME annotation that the input check accepts -
+      mrna       transcript records typed `mRNA` (all of them, or every second one with 'some')
+      blank_ids  gene / transcript ids that hold a blank (`gene_id "G1 x"`)
+      comments   `#` lines and empty lines between the records
+      crlf       CRLF line ends"""
+    style = style or {}
     out = []
     n_exon = {}
+    n_tx = 0
+    retype = {}
+
+    def bl(i):
+        return i + " x" if style.get("blank_ids") else i
+
     with open(path) as f:
         for l in f:
             l = l.rstrip("\n")
@@ -866,12 +984,23 @@ def enrich_gtf(path):
                 continue
             v = l.split("\t")
             gid = v[8].split('gene_id "')[1].split('"')[0]
+            tid = None
+            if v[2] != "gene":
+                tid = v[8].split('transcript_id "')[1].split('"')[0]
+            if style.get("blank_ids"):
+                v[8] = v[8].replace('gene_id "%s"' % gid, 'gene_id "%s"' % bl(gid))
+                if tid is not None:
+                    v[8] = v[8].replace('transcript_id "%s"' % tid, 'transcript_id "%s"' % bl(tid))
             if v[2] == "gene":
                 v[8] += ' gene_name "N_%s"; gene_type "protein_coding"; level "2";' % gid
+                if style.get("comments"):
+                    out += ["", "# gene %s" % gid]
             else:
-                tid = v[8].split('transcript_id "')[1].split('"')[0]
                 if v[2] == "transcript":
                     v[8] += ' gene_name "N_%s"; transcript_name "N_%s-201"; tag "basic"; tag "CCDS"; tag "appris";' % (gid, tid)
+                    n_tx += 1
+                    if style.get("mrna") and (style["mrna"] != "some" or n_tx % 2 == 1):
+                        v[2] = "mRNA"
                 elif v[2] == "exon":
                     n_exon[tid] = n_exon.get(tid, 0) + 1
                     v[8] += ' exon_number "%d"; exon_id "E_%s_%s";' % (n_exon[tid], v[3], v[4])
@@ -880,16 +1009,22 @@ def enrich_gtf(path):
                 c = list(v)
                 c[2], c[3], c[7] = "CDS", str(int(v[3]) + 10), "0"
                 out.append("\t".join(c))
-    with open(path, "w") as f:
-        f.write("\n".join(out) + "\n")
+    if style.get("comments"):
+        out = ["##description: synthetic annotation", "#!genome-build none"] + out + ["", "# end"]
+    eol = "\r\n" if style.get("crlf") else "\n"
+    with open(path, "w", newline="") as f:
+        f.write(eol.join(out) + eol)
 
 
-def pipeline_formats(root, seed, scenario):
-    """(2) .gtf / .gtf.gz / pre-built .db, with and without --complete_genedb: every output file identical"""
+def pipeline_formats(root, seed, scenario, style=None):
+    """(2) .gtf / .gtf.gz / pre-built .db, with and without --complete_genedb: every output file identical.
+    `style`: spelling of the annotation (enrich_gtf) and, with `gzx`, one more compressed copy under another of the names the
+    input check takes for compressed (.gtf.gzip / .gtf.bgz / .GTF.GZ)"""
+    style = style or {}
     ds = B.make_dataset(seed, scenario)
     d = os.path.join(root, "data")
     paths = ds.write(d)
-    enrich_gtf(paths["gtf"])
+    enrich_gtf(paths["gtf"], style)
     gz = paths["gtf"] + ".gz"
     with open(paths["gtf"], "rb") as f, gzip.open(gz, "wb") as g:
         g.write(f.read())
@@ -904,12 +1039,18 @@ def pipeline_formats(root, seed, scenario):
             return "infra", "pre-building the database failed: " + (p.stdout + p.stderr)[-300:]
     variants = [("gtf_complete", paths["gtf"], True), ("gtf_inferred", paths["gtf"], False), ("gz_complete", gz, True),
                 ("gz_inferred", gz, False), ("db_complete", dbc, True), ("dbi_inferred", dbi, False), ("db_noflag", dbc, False)]
+    if style.get("gzx"):
+        gzx = os.path.join(d, {".gtf.gzip": "ann.gtf.gzip", ".gtf.bgz": "ann.gtf.bgz", ".GTF.GZ": "ANN.GTF.GZ"}[style["gzx"]])
+        shutil.copy(gz, gzx)
+        variants.append(("gzx_complete", gzx, True))
     runs = {}
     for name, g, c in variants:
         runs[name] = run_one(root, name, [paths["bam"]], paths["ref"], g, c)
     base = runs["gtf_complete"]
-    if base["rc"] != 0:
-        return "infra", "baseline run failed: " + base["log"][-400:]
+    if base["rc"] != 0 and all(r["rc"] == base["rc"] for r in runs.values()):
+        # no representation runs: nothing to compare (a representation that runs while the baseline does not IS a
+        # difference between representations - audit2-C GAP-2 - and is reported by compare_runs below)
+        return "infra", "every representation failed with exit code %s: %s" % (base["rc"], base["log"][-400:])
     for name, _, _ in variants[1:]:
         r = compare_runs(base, runs[name], None, as_multiset=False)
         if r:
@@ -961,7 +1102,7 @@ def _job(spec):
                                           spec.get("high_memory", False), spec.get("threads", 1))
             return spec, st, r, {"records": n}
         if spec["kind"] == "formats":
-            st, r = pipeline_formats(root, spec["seed"], spec["scenario"])
+            st, r = pipeline_formats(root, spec["seed"], spec["scenario"], spec.get("style"))
             return spec, st, r, {}
         st, r, hit = pipeline_cache(root, spec["seed"], spec["scenario"])
         return spec, st, r, {"cache_hit": hit}
@@ -986,8 +1127,16 @@ def pipeline_specs(ctx, broken):
         for i in range(3):
             specs.append({"kind": "partition", "seed": rng.randint(1, 10 ** 6), "scenario": "deep", "k": rng.randint(2, 4),
                           "part_seed": rng.randint(1, 10 ** 6), "high_memory": i == 2, "threads": 1})
+    # spellings of the annotation (enrich_gtf): the quick tier always has one mRNA-typed file and one with blank ids + CRLF +
+    # another compressed name; thorough draws the dimensions independently
+    styles = [{"mrna": "all", "comments": True}, {"blank_ids": True, "crlf": True, "gzx": ".gtf.gzip"}]
     for i in range(2 if quick else 8):
-        specs.append({"kind": "formats", "seed": rng.randint(1, 10 ** 6), "scenario": rng.choice(scen)})
+        if i < len(styles):
+            st = styles[i]
+        else:
+            st = {"mrna": rng.choice([None, "all", "some"]), "blank_ids": rng.random() < 0.4, "comments": rng.random() < 0.5,
+                  "crlf": rng.random() < 0.3, "gzx": rng.choice([None, ".gtf.gzip", ".gtf.bgz", ".GTF.GZ"])}
+        specs.append({"kind": "formats", "seed": rng.randint(1, 10 ** 6), "scenario": rng.choice(scen), "style": st})
     for i in range(2 if quick else 8):
         specs.append({"kind": "cache", "seed": rng.randint(1, 10 ** 6), "scenario": rng.choice(scen)})
     return specs
